@@ -122,13 +122,26 @@ def enumerate_slices(ctx, index, rng: random.Random):
     rec.notes["enumerated_nonempty_contiguous"] = rec.notes.get("enumerated_nonempty_contiguous", 0) + nonempty_contiguous
 
 
+def np_int(rng, i, zero_d=False):
+    """The integer as the numpy scalar that argmax / searchsorted / iteration over arange would hand over (numpy treats all
+    of them, and a 0-d integer array, as that integer)."""
+    r = rng.random()
+    if r < 0.7:
+        return i
+    if zero_d and r < 0.78:
+        return np.array(i)
+    return rng.choice([np.int64, np.int32, np.intp, np.int16])(i)
+
+
 def case_1d(ctx, index, rng: random.Random):
     rec = ctx.rec
     h = make_1d(rng)
     n = h.shape[0]
     kind = rng.choice(["int", "slice", "slice", "mask", "mask_bad", "array", "array_neg", "array_bad", "array_unsorted", "select"])
     if kind == "int":
-        ix = rng.randint(-n - 2, n + 1)
+        ix = np_int(rng, rng.randint(-n - 2, n + 1), zero_d=True)
+        if not isinstance(ix, int):
+            kind = "int_numpy"
     elif kind in ("slice", "select"):
         ix = slice(rng.choice([None] + list(range(-n - 1, n + 2))), rng.choice([None] + list(range(-n - 1, n + 2))), rng.choice([None, None, None, 1, 2, -1]))
     elif kind == "mask":
@@ -178,7 +191,7 @@ def case_nd(ctx, index, rng: random.Random):
     import physt
 
     rec = ctx.rec
-    d = rng.choice([2, 2, 3, 3, 4])
+    d = rng.choice([1, 2, 2, 2, 3, 3, 3, 4, 4])  # one axis: what the facade makes of data with a single column
     shape = [rng.randint(1, 5) for _ in range(d)]
     if d == 2 and shape[0] == shape[1]:
         shape[1] += 1
@@ -196,7 +209,7 @@ def case_nd(ctx, index, rng: random.Random):
         r = rng.random()
         if r < 0.5:
             lo, hi = (-k - 2, k + 1) if allow_bad else (-k, k - 1)
-            return rng.randint(lo, hi)
+            return np_int(rng, rng.randint(lo, hi))
         a = rng.choice([None] + list(range(-k - 1, k + 2)))
         b = rng.choice([None] + list(range(-k - 1, k + 2)))
         return slice(a, b, rng.choice([None, None, None, -1 if allow_bad else None]))
@@ -221,7 +234,7 @@ def case_nd(ctx, index, rng: random.Random):
         cross_check_result(rec, r, "h[...]", ix)
     except Exception:
         pass
-    ints = [i for i in (ix if isinstance(ix, tuple) else (ix,)) if isinstance(i, int)]
+    ints = [i for i in (ix if isinstance(ix, tuple) else (ix,)) if isinstance(i, (int, np.integer))]
     rec.case(["nd", shape, np.asarray(h.frequencies).ravel()[:60].tolist(), repr(ix)], d >= 3 and len(ints) >= 1 and kind in ("tuple", "select"),
              cls=f"{d}d/{kind}", sample={"shape": shape, "index": repr(ix), "result_shape": None if r is None or not hasattr(r, "shape") else list(r.shape)})
 
